@@ -232,6 +232,9 @@ def job_call(p: Dict[str, Any]) -> Dict[str, Any]:
     names = [i.name for i in m.graph.input]
     st, out = G.ort_run(m, dict(zip(names, xs)))
     if st != "ok":
+        from mc import walker
+        if walker.ort_limitation(str(out)):
+            return {"status": "ok", "ort_limitation": True}
         return {"status": "ok", "diff": f"model {st}: {str(out)[:150]}"}
     if len(out) != len(exp):
         return {"status": "ok", "diff": f"{len(out)} outputs vs {len(exp)}"}
